@@ -91,6 +91,11 @@ def states(tier, seed):
         [1.0, 3.0, 5.0, 20.0, 30.0, 50.0, 100.0, 400.0, 3e4, 1.2e5],
     ):
         out.append(_st(process=proc, projectile=pr, Q2=q2, masses=list(ms), kthr=list(ks), pol=0.4 if proc == "NC" else 0.0, ckm="dense" if proc == "CC" else "pdg"))
+    # the leading-order operator of a higher-order run is the same parton-model expression: PTO 1..3 (higher orders add kernels, some of which share weight tables with the LO ones)
+    for pto, (proc, pr), sc, q2 in itertools.product([1, 2, 3], [("EM", "electron"), ("NC", "positron"), ("CC", "neutrino"), ("CC", "electron")], ["ZM-VFNS", "FFNS4"], [4.0, 30.0, 1e6]):
+        if sc == "FFNS4" and (q2 != 30.0 or pto == 3):
+            continue
+        out.append(_st(process=proc, projectile=pr, scheme=sc, Q2=q2, pol=0.4 if proc == "NC" else 0.0, pto=pto))
     return out
 
 
@@ -110,15 +115,15 @@ def execute(st):
         "scheme": st["scheme"],
         "process": st["process"],
         "projectile": st["projectile"],
-        "pto": 0,
+        "pto": st.get("pto", 0),
         "theory": dict(
-            {"SIN2TW": st["s2w"], "MZ": mz, "MW": st["MW"], "CKM": CKMS[st["ckm"]]},
+            {"SIN2TW": st["s2w"], "MZ": mz, "MW": st["MW"], "CKM": CKMS[st["ckm"]], "RenScaleVar": st.get("pto", 0) == 0, "FactScaleVar": st.get("pto", 0) == 0},
             **({"mc": st["masses"][0], "mb": st["masses"][1], "mt": st["masses"][2], "kcThr": st["kthr"][0], "kbThr": st["kthr"][1], "ktThr": st["kthr"][2]} if "masses" in st else {}),
         ),
         "obscard": {"PolarizationDIS": st["pol"], "PropagatorCorrection": st["prc"]},
     }
     zm = st["scheme"] == "ZM-VFNS"
-    kinds = ["F2", "FL", "F3"] if st["process"] == "CC" else KINDS
+    kinds = ["F2", "FL", "F3"] if st["process"] == "CC" or st.get("pto", 0) == 3 else KINDS  # polarised O(a_s^3) does not exist (open known finding of C16)
     heavies = HEAVY if zm else ["light"]
     obs = {cards.obsname(k, h): [cards.kin(x, st["Q2"]) for _, x in XPTS] for k in kinds for h in heavies}
     out, status = rel.try_run(cell, obs)
@@ -137,7 +142,7 @@ def execute(st):
             w = ref_ew.lo_weights(k, h, st["process"], st["projectile"], nf, pol=st["pol"], Q2=st["Q2"], MZ=mz, s2w=st["s2w"], prc=st["prc"], ckm=CKMS[st["ckm"]])
             for i, (lab, x) in enumerate(XPTS):
                 T = yrun.tensors(out[name][i])
-                if set(T) != {(0, 0, 0, 0)}:
+                if st.get("pto", 0) == 0 and set(T) != {(0, 0, 0, 0)}:
                     viol.append(_v(st, name, "keys", f"{name}: order keys {sorted(T)} at PTO 0"))
                     continue
                 val = T[(0, 0, 0, 0)][0]
